@@ -57,6 +57,30 @@ def main():
     v2 = verdicts([variant("drop-event", drop_event)])
     ok = "drop-event" not in v2
     print(("ok   " if ok else "FAIL ") + "drop-event: expected 'not explained', got " + ("not explained" if ok else str(sorted(v2["drop-event"]))))
+    # ---- the text formats: a session with V3000 / V2000 reads, a written file and its read-back
+    tbase = json.load(open(os.path.join(HERE, "fixtures", "session_text.json")))
+    def tvariant(name, fn):
+        c = copy.deepcopy(tbase); c["id"] = name; fn(c["ev"]); return c
+    def wrong_charge(ev):
+        first(ev, "read")["g"]["atoms"][0]["c"] = 1
+    def lost_dt_mass(ev):
+        e = first(ev, "read", 1); e["g"]["atoms"][1]["m"] = 0; e["g"]["atoms"][1]["hm"] = False
+    def long_line(ev):
+        e = first(ev, "write"); i = max(range(len(e["lines"])), key=lambda k: len(e["lines"][k])); e["lines"][i] += " " * 12
+    def moved_digit(ev):
+        e = first(ev, "write")
+        for i, l in enumerate(e["lines"]):
+            if l.endswith("-") and l.startswith("M  V30 ") and i + 1 < len(e["lines"]):
+                e["lines"][i] = l[:-2] + "-"            # the character before the continuation dash is dropped
+                break
+    tcases = [tbase, tvariant("wrong-charge", wrong_charge), tvariant("lost-dt-mass", lost_dt_mass), tvariant("long-line", long_line), tvariant("moved-digit", moved_digit)]
+    tv = verdicts(tcases)
+    texpect = {tbase["id"]: None, "wrong-charge": "C07:charge", "lost-dt-mass": "C08:isotope-mass", "long-line": "C09:line-longer-than-80-characters", "moved-digit": "C09:"}
+    for k, want in texpect.items():
+        got = tv.get(k)
+        okk = got is not None and ((want is None and not [c for c in got if not c.startswith("R:")]) or (want is not None and any(c.startswith(want) for c in got)))
+        print(("ok   " if okk else "FAIL ") + f"{k}: expected {want or 'no clause'}, got {sorted(got) if got is not None else 'not explained'}")
+        bad += 0 if okk else 1
     return 1 if bad or not ok else 0
 
 
